@@ -711,10 +711,12 @@ func (ls *LState) stackTrace(level int) string {
 			cf := dbg.frame
 			buf = append(buf, fmt.Sprintf("\t%v in %v", ls.Where(i), ls.formattedFrameFuncName(cf)))
 			if !cf.Fn.IsG && cf.TailCall > 0 {
-				for tc := cf.TailCall; tc > 0; tc-- {
+				// a long traceback keeps its first and last 7 lines only: of the
+				// identical lines of one frame's tail calls 20 are as good as all
+				for tc := intMin(cf.TailCall, 20); tc > 0; tc-- {
 					buf = append(buf, "\t(tailcall): ?")
-					i++
 				}
+				i += cf.TailCall
 			}
 			i++
 		}
